@@ -489,6 +489,27 @@ def gen_dyn(g):
             sched.append(gen_run(g, k))
         elif c < 0.8:
             sched.append({'op': 'reset', 'reapply': g.chance(0.7)})
+            bare = [d for d in scn['decls'] if d['op'] == 'gear' and
+                    d['m'] in chain and d['s'] in chain and
+                    scn['elements'][d['m']].get('m') is None and
+                    scn['elements'][d['s']].get('m') is None]
+            if bare and g.chance(0.3) and not g.cfg.get('differential'):
+                # a second powertrain assembled on the same motor and parts,
+                # simulated and reset before the first one is run again
+                import copy as _copy
+                d = r.choice(bare)
+                new = _copy.deepcopy(scn['elements'][d['s']])
+                new['z'] = g.teeth()
+                new['J'] = g.inertia()
+                new['name'] = f'other{len(sched)}'
+                ru = gen_run(g, k, kdt=g.logu(0.05, 0.8), n=r.randint(2, 12))
+                sched.append({'op': 'other_powertrain', 'element': new,
+                              'decl': {'op': 'gear', 'm': d['m'],
+                                       'eff': round(r.uniform(0.4, 1.0), 3)},
+                              'dt': ru['dt'], 'n': ru['n'],
+                              'load': r.uniform(-0.5, 0.5) *
+                              model.e[chain[0]]['Tmax'],
+                              'reapply': sched[-1]['reapply']})
             sched.append(gen_run(g, k, solver=r.choice(['same', 'new'])))
         else:
             sched.append(gen_run(g, k, solver='new'))
@@ -496,7 +517,8 @@ def gen_dyn(g):
     add_control(g, scn, model, chain, p=0.4)
     add_stops(g, scn, model, chain, p=0.25)
     if g.chance(0.08) and not g.cfg.get('differential') and \
-            not any(o['op'] == 'branch_off' for o in sched):
+            not any(o['op'] in ('branch_off', 'other_powertrain')
+                    for o in sched):
         # (a branch re-routes 'drives': a powertrain assembled afterwards
         # would follow the branch)
         add_remating_phase(g, scn, model, chain, k)
